@@ -341,18 +341,17 @@ theorem mkHist_invalid {e : Edges α} (he : ¬ ValidEdges e) (bins : Option (NAr
   simp [mkHist, checkEdgesIncreasing_err he, bind, Except.bind]
 
 /-- creation from existing bins, as the code does it ("a simple check of the shape of bins"):
-only the outer length is compared — with `len(edges) − 1` when `dim == 1` (so nested
-one-dimensional edges `[[…]]` accept only `bins` of length 0: a quirk of histogram.py:153-158,
-outside the statement of C06), with `len(edges[0]) − 1` otherwise. -/
+only the outer length is compared, with the number of bins of the first axis (after the fix
+8d715e5 also for nested one-dimensional edges `[[…]]`, see notes/C06_defect_1.md). -/
 theorem mkHist_bins {e : Edges α} (he : ValidEdges e) (xs : List (NArr β)) (init : β) :
     mkHist e (some (.node xs)) init =
-      if xs.length = (if edgesDim e = 1 then e.len - 1 else (e.axes.head?.getD []).length - 1)
+      if xs.length = (e.axes.head?.getD []).length - 1
       then .ok { edges := e, bins := .node xs, nOut := 0, dim := edgesDim e }
       else .error .lenaValueError := by
   cases e with
   | flat arr =>
     simp only [mkHist, checkEdgesIncreasing_ok he, lenBins, bind, Except.bind, pure, Except.pure, edgesDim,
-      if_true, Edges.len]
+      Edges.axes, List.head?_cons, Option.getD_some]
     by_cases h : xs.length = arr.length - 1 <;> simp [h]
   | nested axes =>
     have hne : axes ≠ [] := he.1
@@ -360,12 +359,27 @@ theorem mkHist_bins {e : Edges α} (he : ValidEdges e) (xs : List (NArr β)) (in
     | nil => exact absurd rfl hne
     | cons a0 rest =>
       simp only [mkHist, checkEdgesIncreasing_ok he, lenBins, bind, Except.bind, pure, Except.pure, edgesDim,
-        Edges.len, Edges.axes, List.head?_cons, Option.getD_some, List.length_cons]
-      by_cases hd : rest.length + 1 = 1
-      · simp only [hd, if_true]
-        by_cases h : xs.length = rest.length + 1 - 1 <;> simp [h]
-      · simp only [hd, if_false]
-        by_cases h : xs.length = a0.length - 1 <;> simp [h]
+        Edges.axes, List.head?_cons, Option.getD_some, List.length_cons]
+      by_cases h : xs.length = a0.length - 1 <;> simp [h]
+
+/-- creation from bins of the matching regular shape succeeds, in every dimension and both edge
+formats, and the result is well-formed: so everything proved for well-formed histograms applies
+to histograms created from existing bins -/
+theorem mkHist_bins_wf {e : Edges α} (he : ValidEdges e) (b : NArr β) (init : β)
+    (hs : NArr.HasShape (dimsOf e.axes) b) :
+    ∃ h, mkHist e (some b) init = .ok h ∧ WF h ∧ h.edges = e ∧ h.bins = b ∧ h.nOut = 0 := by
+  have hne := he.1
+  cases hax : e.axes with
+  | nil => exact absurd hax hne
+  | cons a0 rest =>
+    rw [hax] at hs
+    cases b with
+    | leaf c => exact absurd hs hasShape_leaf_cons
+    | node xs =>
+      have hlen : xs.length = a0.length - 1 := (hasShape_node.1 hs).1
+      refine ⟨{ edges := e, bins := .node xs, nOut := 0, dim := edgesDim e }, ?_, ⟨he, ?_⟩, rfl, rfl, rfl⟩
+      · rw [mkHist_bins he, hax]; simp [hlen]
+      · simp only [hax]; exact hs
 
 theorem mkHist_wf {e : Edges α} (he : ValidEdges e) (init : β) {h : Hist α β}
     (hm : mkHist e none init = .ok h) : WF h ∧ h.edges = e ∧ h.nOut = 0 ∧ h.bins = NArr.full (dimsOf e.axes) init := by
@@ -566,14 +580,17 @@ example : ¬ ValidEdges (.flat [0, 1, 1] : Edges Int) := by
   have := (h.2 [0, 1, 1] (by simp [Edges.axes])).2
   revert this; unfold StrictInc; decide
 
-/-- the quirk of the shape test for nested one-dimensional edges (model = code) -/
+/-- nested one-dimensional edges accept bins of the right length (fix 8d715e5) and reject `[]` -/
 theorem ex1_valid : ValidEdges (.nested [[0, 1, 2]] : Edges Int) :=
   ⟨by simp [Edges.axes], by
     intro arr h
     simp only [Edges.axes, List.mem_cons, List.not_mem_nil, or_false] at h
     subst h; exact ⟨by decide, by unfold StrictInc; decide⟩⟩
 example : mkHist (.nested [[0, 1, 2]] : Edges Int) (some (.node [.leaf 0, .leaf 0])) (0 : Int) =
-    .error .lenaValueError := by rw [mkHist_bins ex1_valid]; rfl
+    .ok { edges := .nested [[0, 1, 2]], bins := .node [.leaf 0, .leaf 0], nOut := 0, dim := 1 } := by
+  rw [mkHist_bins ex1_valid]; rfl
+example : mkHist (.nested [[0, 1, 2]] : Edges Int) (some (.node [])) (0 : Int) = .error .lenaValueError := by
+  rw [mkHist_bins ex1_valid]; rfl
 example : mkHist exEdges (some (.node [.leaf 0, .leaf 0, .leaf 0])) (0 : Int) =
     .ok { edges := exEdges, bins := .node [.leaf 0, .leaf 0, .leaf 0], nOut := 0, dim := 2 } := by
   rw [mkHist_bins exEdges_valid]; rfl
